@@ -84,22 +84,23 @@ def bumpPlayer (ps : List PlayerResult) (idx : Nat) (d : Int) : List PlayerResul
 structure Acc where
   players : List PlayerResult
   winners : List Winner
+  offset : Int := 0               -- pot.go `oddChipOffset`: winner position that receives the next odd chip
 
 /-- settlement.go: `Update`. -/
 def Acc.update (a : Acc) (idx : Nat) (wager withdraw : Int) : Acc :=
-  { winners := if withdraw > 0 then updateWinner a.winners idx (withdraw + wager) else a.winners,
-    players := bumpPlayer a.players idx withdraw }
+  { a with winners := if withdraw > 0 then updateWinner a.winners idx (withdraw + wager) else a.winners,
+           players := bumpPlayer a.players idx withdraw }
 
 /-- rank.go: `Calculate` — groups by score, best first. -/
 def sortGroups (gs : List RankGroup) : List RankGroup :=
   isort (fun a b => decide (a.score > b.score)) gs
 
-/-- settlement.go: loop of `CalculateWinnerRewards`. -/
-def payWinners (wager based remainder : Int) : Acc → Nat → List Nat → Acc
+/-- settlement.go: loop of `CalculateWinnerRewards`: odd chips go round-robin starting at `offset`. -/
+def payWinners (wager based remainder count offset : Int) : Acc → Nat → List Nat → Acc
   | a, _, [] => a
   | a, i, w :: ws =>
-    let reward := if (i : Int) < remainder then based + 1 else based
-    payWinners wager based remainder (a.update w wager (reward - wager)) (i + 1) ws
+    let reward := if Int.tmod ((i : Int) - offset + count) count < remainder then based + 1 else based
+    payWinners wager based remainder count offset (a.update w wager (reward - wager)) (i + 1) ws
 
 /-- settlement.go: `CalculateWinnerRewards` then `CalculateLoserResults` for one level.
     A level without any ranked contributor divides by zero in Go; the model leaves the
@@ -109,7 +110,11 @@ def settleLevel (a : Acc) (l : LevelInfo) : Acc :=
   | [] => a
   | g :: losers =>
     let n : Int := g.contributors.length
-    let a := payWinners l.wager (Int.tdiv l.total n) (Int.tmod l.total n) a 0 g.contributors
+    let based := Int.tdiv l.total n
+    let remainder := Int.tmod l.total n
+    let offset := Int.tmod a.offset n
+    let a := payWinners l.wager based remainder n offset a 0 g.contributors
+    let a := { a with offset := Int.tmod (offset + remainder) n }
     (losers.flatMap (·.contributors)).foldl (fun a i => a.update i l.wager (-l.wager)) a
 
 /-- settlement.go: `CalculatePot`. -/
